@@ -19,6 +19,7 @@ import (
 	"go/token"
 	"os"
 	"path/filepath"
+	"reflect"
 	"regexp"
 	"runtime"
 	"runtime/debug"
@@ -26,6 +27,7 @@ import (
 	"strings"
 	"sync"
 	"time"
+	"unsafe"
 
 	"github.com/jmeaster30/vore/libvore"
 	"github.com/jmeaster30/vore/libvore/ast"
@@ -133,27 +135,65 @@ func compileSrc(src string, r Result) *compiled {
 
 // the library's public entry points on the same source and texts: libvore.Compile must accept/reject as the pipeline above does (same error class)
 // and (*Vore).Run must return what engine.Run returned for the pipeline's bytecode.  The first difference is recorded under "api_diff".
+// the bytecode inside a *libvore.Vore (an unexported field; read, never written)
+func voreBytecode(v *libvore.Vore) *bytecode.Bytecode {
+	f := reflect.ValueOf(v).Elem().FieldByName("bytecode")
+	if !f.IsValid() {
+		return nil
+	}
+	return *(**bytecode.Bytecode)(unsafe.Pointer(f.UnsafeAddr()))
+}
+
 func apiPass(src string, texts []string, direct []string, r Result) {
-	v, err := libvore.Compile(src)
+	apiPassWith("libvore.Compile", func() (*libvore.Vore, error) { return libvore.Compile(src) }, texts, direct, r)
+}
+
+// the same source stored in a file and compiled with libvore.CompileFile
+func filePass(src string, texts []string, direct []string, r Result) {
+	f, err := os.CreateTemp(".", "src-*.vore")
+	if err != nil {
+		r["harness_error"] = err.Error()
+		return
+	}
+	name := f.Name()
+	f.WriteString(src)
+	f.Close()
+	defer os.Remove(name)
+	r["stage"] = "libvore.CompileFile" // stays in the result only if the call below panics
+	apiPassWith("libvore.CompileFile", func() (*libvore.Vore, error) { return libvore.CompileFile(name) }, texts, direct, r)
+	delete(r, "stage")
+}
+
+func apiPassWith(what string, compile func() (*libvore.Vore, error), texts []string, direct []string, r Result) {
+	if _, done := r["api_diff"]; done {
+		return
+	}
+	v, err := compile()
 	_, accepted := r["bc"]
 	if err != nil || v == nil {
 		if accepted {
-			r["api_diff"] = fmt.Sprintf("libvore.Compile rejects (%v) what ParseReader+GenerateBytecode accept", err)
+			r["api_diff"] = fmt.Sprintf("%s rejects (%v) what ParseReader+GenerateBytecode accept", what, err)
 		} else if err != nil && errClass(err) != r["errclass"] {
-			r["api_diff"] = fmt.Sprintf("libvore.Compile error class %s, pipeline %v", errClass(err), r["errclass"])
+			r["api_diff"] = fmt.Sprintf("%s error class %s, pipeline %v", what, errClass(err), r["errclass"])
 		}
 		return
 	}
 	if !accepted {
-		r["api_diff"] = "libvore.Compile accepts what ParseReader+GenerateBytecode reject"
+		r["api_diff"] = what + " accepts what ParseReader+GenerateBytecode reject"
 		return
+	}
+	if bc := voreBytecode(v); bc != nil {
+		if got, want := canonIds(bcSexp(bc)), canonIds(r["bc"].(string)); got != want {
+			r["api_diff"] = fmt.Sprintf("%s holds bytecode %s, the pipeline generates %s", what, got, want)
+			return
+		}
 	}
 	for i, t := range texts {
 		if i >= len(direct) {
 			break
 		}
 		if got := matchesSexp(v.Run(t)); got != direct[i] {
-			r["api_diff"] = fmt.Sprintf("text %d: (*Vore).Run gives %s, engine.Run on the pipeline's bytecode %s", i, got, direct[i])
+			r["api_diff"] = fmt.Sprintf("text %d: (*Vore).Run after %s gives %s, engine.Run on the pipeline's bytecode %s", i, what, got, direct[i])
 			r["api_text"] = i
 			return
 		}
@@ -187,6 +227,9 @@ func opE2E(c Case, r Result) {
 		}
 	}
 	apiPass(src, texts, direct, r)
+	if file, _ := c["file"].(bool); file {
+		filePass(src, texts, direct, r)
+	}
 }
 
 func opE2EBody(c Case, r Result, cp *compiled) {
@@ -261,7 +304,14 @@ func opFiles(c Case, r Result) {
 	case "OVERWRITE":
 		mode = engine.OVERWRITE
 	}
-	ms := engine.RunFiles(cp.bc, names, mode, false)
+	// through the library's entry points when they accept the source (they must: the pipeline did), else on the pipeline's bytecode
+	var ms engine.Matches
+	if v, err := libvore.Compile(src); err == nil && v != nil {
+		ms = v.RunFiles(names, mode, false)
+	} else {
+		r["api_diff"] = fmt.Sprintf("libvore.Compile rejects (%v) what ParseReader+GenerateBytecode accept", err)
+		ms = engine.RunFiles(cp.bc, names, mode, false)
+	}
 	fnames := []string{}
 	for i := range ms {
 		rel, _ := filepath.Rel(dir, ms[i].Filename)
@@ -478,16 +528,29 @@ func opConc(c Case, r Result) {
 				// compile concurrently
 				var got string
 				var prog *bytecode.Bytecode
-				a, err := ast.ParseReader(strings.NewReader(sources[i]))
-				if err != nil {
-					got = "ERR:" + errClass(err)
-				} else {
-					bc, gerr := bytecode.GenerateBytecode(a)
-					if gerr != nil {
-						got = "ERR:" + errClass(gerr)
+				var api *libvore.Vore
+				if (g+it)%2 == 0 {
+					a, err := ast.ParseReader(strings.NewReader(sources[i]))
+					if err != nil {
+						got = "ERR:" + errClass(err)
 					} else {
-						got = canon(bc)
-						prog = bc
+						bc, gerr := bytecode.GenerateBytecode(a)
+						if gerr != nil {
+							got = "ERR:" + errClass(gerr)
+						} else {
+							got = canon(bc)
+							prog = bc
+						}
+					}
+				} else {
+					// every other call goes through the library's entry point
+					v, err := libvore.Compile(sources[i])
+					if err != nil || v == nil {
+						got = "ERR:" + errClass(err)
+					} else {
+						api = v
+						prog = voreBytecode(v)
+						got = canon(prog)
 					}
 				}
 				local := []string{}
@@ -505,7 +568,13 @@ func opConc(c Case, r Result) {
 				}
 				if prog != nil && got == expected[i].bc {
 					for k, t := range texts {
-						if m := matchesSexp(engine.Run(prog, t)); m != expected[i].matches[k] {
+						var ms engine.Matches
+						if api != nil {
+							ms = api.Run(t)
+						} else {
+							ms = engine.Run(prog, t)
+						}
+						if m := matchesSexp(ms); m != expected[i].matches[k] {
 							local = append(local, fmt.Sprintf("run of private program %d on text %d differs", i, k))
 						}
 					}
@@ -537,6 +606,23 @@ func canonIds(bc string) string {
 	})
 }
 
+// every match rendered on its own (Match.Json, Match.FormattedJson) is the document it is as an element of the list
+func singleJson(ms engine.Matches, r Result) {
+	var list []any
+	if err := json.Unmarshal([]byte(ms.Json()), &list); err != nil || len(list) != len(ms) {
+		return // the list rendering itself is judged by the caller
+	}
+	for i, m := range ms {
+		var a, b any
+		ea := json.Unmarshal([]byte(m.Json()), &a)
+		eb := json.Unmarshal([]byte(m.FormattedJson()), &b)
+		if ea != nil || eb != nil || !reflect.DeepEqual(a, list[i]) || !reflect.DeepEqual(b, list[i]) {
+			r["single_json_diff"] = fmt.Sprintf("match %d: Match.Json / Match.FormattedJson differ from element %d of Matches.Json (%v %v)", i, i, ea, eb)
+			return
+		}
+	}
+}
+
 // json: compact and formatted JSON of the results, per text, next to the in-memory matches
 func opJson(c Case, r Result) {
 	src := bytesArg(c, "src")
@@ -550,6 +636,7 @@ func opJson(c Case, r Result) {
 		ms := engine.Run(cp.bc, string(b))
 		outs = append(outs, []string{hex.EncodeToString([]byte(ms.Json())), hex.EncodeToString([]byte(ms.FormattedJson())), matchesSexp(ms)})
 		r["json"] = outs
+		singleJson(ms, r)
 	}
 	r["json"] = outs
 }
@@ -589,6 +676,7 @@ func opJsonFiles(c Case, r Result) {
 	r["filenames_hex"] = fnames
 	r["dir"] = dir
 	r["json"] = []string{hex.EncodeToString([]byte(ms.Json())), hex.EncodeToString([]byte(ms.FormattedJson()))}
+	singleJson(ms, r)
 }
 
 // lex: {"op":"lex","src_hex":..} -> the token stream of the lexer (type, lexeme) or the lex error
